@@ -298,7 +298,100 @@ def _normalise_tree(tree):
             node.test.operand, node.orelse, node.body
       return node
   N().visit(tree)
+  for fn in ast.walk(tree):
+    if isinstance(fn, ast.FunctionDef):
+      _fold_single_use_temps(fn)
   ast.fix_missing_locations(tree)
+
+
+def _fold_single_use_temps(fn):
+  """t = <expr>; <next statement reads t once, nowhere else>  ->  the next
+  statement with <expr> in place of t.  Only for a local bound exactly once
+  in the function (plain `name = expr`), read exactly once, that read being
+  in the header of the immediately following statement of the same block
+  (not a `while` test, which is re-evaluated).  Introducing or removing such
+  a temporary is therefore invisible to every rule."""
+  changed = True
+  while changed:
+    changed = False
+    stores, loads = {}, {}
+    for n in ast.walk(fn):
+      if isinstance(n, ast.Name):
+        d = stores if isinstance(n.ctx, (ast.Store, ast.Del)) else loads
+        d[n.id] = d.get(n.id, 0) + 1
+      elif isinstance(n, ast.arg):
+        stores[n.arg] = stores.get(n.arg, 0) + 2
+      elif isinstance(n, ast.ExceptHandler) and n.name:
+        stores[n.name] = stores.get(n.name, 0) + 2
+      elif isinstance(n, (ast.Global, ast.Nonlocal)):
+        for nm in n.names:
+          stores[nm] = stores.get(nm, 0) + 2
+    inner = set()
+    for n in ast.walk(fn):
+      if n is not fn and isinstance(n, (ast.FunctionDef, ast.Lambda,
+                                        ast.ListComp, ast.SetComp,
+                                        ast.DictComp, ast.GeneratorExp)):
+        for x in ast.walk(n):
+          if isinstance(x, ast.Name):
+            inner.add(x.id)
+
+    def header(st):
+      if isinstance(st, (ast.Assign, ast.AugAssign, ast.Return, ast.Expr,
+                         ast.AnnAssign, ast.Raise, ast.Assert)):
+        return [st]
+      if isinstance(st, ast.If):
+        return [st.test]
+      if isinstance(st, ast.For):
+        return [st.iter]
+      if isinstance(st, ast.With):
+        return [i.context_expr for i in st.items]
+      return []
+    for blk_owner in ast.walk(fn):
+      for fld in ('body', 'orelse', 'finalbody'):
+        body = getattr(blk_owner, fld, None)
+        if not (isinstance(body, list) and body and
+                isinstance(body[0], ast.stmt)):
+          continue
+        for i in range(len(body) - 1):
+          st, nx = body[i], body[i + 1]
+          if not (isinstance(st, ast.Assign) and len(st.targets) == 1 and
+                  isinstance(st.targets[0], ast.Name)):
+            continue
+          nm = st.targets[0].id
+          if stores.get(nm, 0) != 1 or loads.get(nm, 0) != 1 or nm in inner:
+            continue
+          uses = [x for h in header(nx) for x in ast.walk(h)
+                  if isinstance(x, ast.Name) and x.id == nm and
+                  isinstance(x.ctx, ast.Load)]
+          if len(uses) != 1:
+            continue
+          # the value must not be rebound-sensitive: names it reads are not
+          # assigned by the next statement's own targets before the use
+          val = st.value
+
+          class Sub(ast.NodeTransformer):
+            def visit_Name(self, n):
+              if n is uses[0]:
+                return ast.copy_location(val, n)
+              return n
+          for h in header(nx):
+            Sub().visit(h) if not isinstance(h, ast.stmt) else None
+          if isinstance(nx, ast.If):
+            nx.test = Sub().visit(nx.test)
+          elif isinstance(nx, ast.For):
+            nx.iter = Sub().visit(nx.iter)
+          elif isinstance(nx, ast.With):
+            for it in nx.items:
+              it.context_expr = Sub().visit(it.context_expr)
+          else:
+            Sub().visit(nx)
+          del body[i]
+          changed = True
+          break
+        if changed:
+          break
+      if changed:
+        break
 
 
 class Repo:
